@@ -295,7 +295,7 @@ func verifLemmaMaxBodyTight(c *channelInstance, m *Message, chunkSize int, chunk
 //@   bytes
 //@   requires s != nil
 //@   assigns held(&s.instancesMu), released(&s.instancesMu)
-//@   ensures [C17:candidates] len(s.instances[id]) > 0 ==> sameslice(result, s.instances[id])
+//@   ensures [C17:candidates] len(result) == 0 || sameslice(result, s.instances[id])
 //@   ensures [C17:no-candidates] len(s.instances[id]) == 0 ==> len(result) == 0
 
 // frame of SetMaximumBodySize for any algorithm (the main contract above is the C38 formula)
@@ -322,6 +322,141 @@ func verifLemmaMaxBodyTight(c *channelInstance, m *Message, chunkSize int, chunk
 //@   ensures [C17:registered] err == nil ==> len(s.instances[cid]) >= 1 &&
 //@           at(s.instances[cid], off(s.instances[cid]) + len(s.instances[cid]) - 1) == instance
 //@   canary ensures [C17:canary-token-zero] err == nil ==> instance.securityTokenID == 0
+
+// ---------------------------------------------------------------------------
+// C13: the receive path survives any peer bytes. Header decoding: what a chunk decoder guarantees
+// about its result (the precondition of verifyAndDecrypt, C09).
+// ---------------------------------------------------------------------------
+
+//@ func (*MessageHeader).Decode
+//@   props C13 C09
+//@   use (*github.com/gopcua/opcua/ua.Buffer).ReadStruct@inline
+//@   requires m != nil
+//@   assigns *m
+//@   ensures [C13:headers] err == nil ==> m.Header != nil && m.SequenceHeader != nil && 0 <= result0 && result0 <= len(b)
+//@   ensures [C13:asymmetric] err == nil && m.Header.MessageType == "OPN" ==> m.AsymmetricSecurityHeader != nil &&
+//@           result0 == 12 + m.AsymmetricSecurityHeader.Len()
+//@   ensures [C13:symmetric] err == nil && m.Header.MessageType != "OPN" ==> m.SymmetricSecurityHeader != nil
+//@   ensures [C13:symmetric-size] err == nil && m.Header.MessageType != "OPN" ==> result0 == 16 &&
+//@           m.AsymmetricSecurityHeader == old(m.AsymmetricSecurityHeader)
+//@   ensures [C13:own-headers] err == nil ==> fresh(m.Header) && fresh(m.SequenceHeader) &&
+//@           (m.Header.MessageType == "OPN" ==> fresh(m.AsymmetricSecurityHeader)) && (m.Header.MessageType != "OPN" ==> fresh(m.SymmetricSecurityHeader))
+//@   canary ensures [C13:canary-fixed-size] err == nil ==> result0 == 16
+
+// what the chunk decoder guarantees: allocated headers of the right kind, at least as many input bytes
+// as the headers occupy, and chunk data that is the rest of the very same input
+//@ pred chunkDecoded(m *MessageChunk, b []byte) := m.MessageHeader != nil && m.MessageHeader.Header != nil && m.MessageHeader.SequenceHeader != nil &&
+//@     (m.MessageHeader.AsymmetricSecurityHeader != nil ==>
+//@         len(b) >= 12 + m.MessageHeader.AsymmetricSecurityHeader.Len() && len(m.Data) == len(b) - (12 + m.MessageHeader.AsymmetricSecurityHeader.Len())) &&
+//@     (m.MessageHeader.AsymmetricSecurityHeader == nil ==> m.MessageHeader.SymmetricSecurityHeader != nil && len(b) >= 16 && len(m.Data) == len(b) - 16) &&
+//@     (m.MessageHeader.Header.MessageType == "OPN") == (m.MessageHeader.AsymmetricSecurityHeader != nil) &&
+//@     arr(m.Data) == arr(b) && off(m.Data) + len(m.Data) == off(b) + len(b)
+
+//@ func (*MessageChunk).Decode
+//@   props C13 C09 C20
+//@   requires m != nil
+//@   assigns *m
+//@   ensures [C13:chunk] err == nil ==> chunkDecoded(m, b)
+//@   ensures [C13:own-headers] err == nil ==> fresh(m.MessageHeader) && fresh(m.MessageHeader.Header) && fresh(m.MessageHeader.SequenceHeader)
+//@   canary ensures [C13:canary-no-data] err == nil ==> len(m.Data) == 0
+
+// a token instance the receiver may use: configuration and algorithm present, signature sizes sane
+// (established by the uapolicy constructors; a precondition here)
+//@ pred instOK(c *channelInstance) := c != nil && c.sc != nil && c.sc.cfg != nil && c.algo != nil &&
+//@     0 <= c.algo.remoteSignatureLength && c.algo.remoteSignatureLength <= 65536 &&
+//@     0 <= c.algo.signatureLength && c.algo.signatureLength <= 65536
+//@ pred storedOK(s *SecureChannel) := s != nil && s.instances != nil &&
+//@     (forall k uint32 :: { in(k, s.instances) } in(k, s.instances) ==> forall i int :: { at(s.instances[k], i) }
+//@         off(s.instances[k]) <= i && i < off(s.instances[k]) + len(s.instances[k]) ==> instOK(at(s.instances[k], i)))
+
+// The channel-level search: every stored token of the chunk's channel id is tried, newest first.
+// Whatever the peer sent: no panic, an error never comes with data, and delivered data is the chunk's
+// own data or an array allocated by the instance that verified it (C20).
+//@ func (*SecureChannel).verifyAndDecrypt
+//@   props C13 C09 C20
+//@   bytes
+//@   requires storedOK(s) && s.c != nil && m != nil && chunkDecoded(m, b)
+//@   requires instance != nil ==> instOK(instance)
+//@   assigns any uapolicy.EncryptionAlgorithm.decrypt, any uapolicy.EncryptionAlgorithm.verifySignature, uapolicy.sigCheckedKey(b), uapolicy.sigCheckedLen(b)
+//@   assigns held(&s.instancesMu), released(&s.instancesMu)
+//@   ensures [C09:error-nothing] err != nil ==> len(result0) == 0
+//@   ensures [C20:alias] err == nil ==> sameslice(result0, m.Data) || fresh(result0)
+//@   loop 0 invariant -1 <= i && i < len(instances) && storedOK(s) && s.c != nil && m != nil && chunkDecoded(m, b)
+//@   loop 0 invariant forall j int :: { at(instances, j) } off(instances) <= j && j < off(instances) + len(instances) ==> instOK(at(instances, j))
+//@   loop 0 invariant [C09:error-nothing] i < len(instances) - 1 ==> err != nil
+//@   loop 0 decreases i + 1
+
+// One chunk from the transport: whatever the peer sent (any frame uacp.Conn.Receive can deliver, in any
+// channel state) no panic; a delivered chunk has its headers allocated and its data lies in memory
+// allocated during this call (the frame, or the buffer of the instance that decrypted it) -- never in
+// memory that existed before, so no later traffic can reach it (C20).
+//@ func (*SecureChannel).readChunk
+//@   props C13 C20
+//@   requires storedOK(s) && s.c != nil && uacp.connInv(s.c) && s.cfg != nil
+//@   requires s.openingInstance != nil ==> instOK(s.openingInstance)
+//@   assigns allbut SecureChannel uacp.Conn uacp.Acknowledge MessageChunk MessageHeader SequenceHeader Header SymmetricSecurityHeader AsymmetricSecurityHeader []*MessageChunk []*channelInstance map[uint32][]*MessageChunk map[uint32][]*channelInstance channelInstance.sc uapolicy.EncryptionAlgorithm.remoteSignatureLength uapolicy.EncryptionAlgorithm.signatureLength
+//@   assigns io.streamPos(s.c), held(&s.instancesMu), released(&s.instancesMu)
+//@   ensures [C13:tables-kept] storedOK(s) && (s.openingInstance != nil ==> instOK(s.openingInstance))
+//@   after "errors.As(err,&uacperr)" assigns nothing
+//@   after "errors.As(err,&uacperr)" ensures result ==> arg0 != nil
+//@   ensures [C13:chunk] err == nil ==> result0 != nil && result0.MessageHeader != nil && result0.MessageHeader.Header != nil &&
+//@           result0.MessageHeader.SequenceHeader != nil
+//@   ensures [C20:fresh-data] err == nil ==> len(result0.Data) == 0 || fresh(result0.Data)
+//@   ensures [C13:error-nothing] err != nil ==> result0 == nil
+
+// mergeChunks for ANY chunk list (a peer need not be conforming): no panic, and the result is the single
+// chunk's own data or freshly allocated (the C12 contract above states the content for conforming lists)
+//@ func mergeChunks@safe
+//@   props C13 C20
+//@   requires chunksOK(chunks)
+//@   assigns nothing
+//@   ensures [C20:fresh] len(chunks) >= 2 ==> arr(result0) == 0 || fresh(result0)
+//@   ensures [C20:single] len(chunks) == 1 ==> sameslice(result0, chunks[0].Data)
+//@   loop 0 invariant -1 <= rangeindex && rangeindex < len(chunks) && len(chunks) >= 2
+//@   loop 0 invariant arr(b) == 0 || fresh(b)
+//@   loop 0 decreases len(chunks) - rangeindex
+
+// the table of incomplete messages: lists of decoded chunks
+//@ pred chunkTableOK(s *SecureChannel) := s.chunks != nil &&
+//@     (forall k uint32 :: { in(k, s.chunks) } in(k, s.chunks) ==> alive(s.chunks[k])) &&
+//@     (forall k uint32 :: { in(k, s.chunks) } in(k, s.chunks) ==> forall i int :: { at(s.chunks[k], i) }
+//@         off(s.chunks[k]) <= i && i < off(s.chunks[k]) + len(s.chunks[k]) ==>
+//@         at(s.chunks[k], i) != nil && at(s.chunks[k], i).MessageHeader != nil && at(s.chunks[k], i).MessageHeader.SequenceHeader != nil)
+
+// the server-side OPN handler (its own sweep is not done here): leaves the receive tables alone
+//@ func (*SecureChannel).handleOpenSecureChannelRequest
+//@   props C13
+//@   assumed
+//@   assigns allbut MessageChunk MessageHeader SequenceHeader Header uacp.Conn uacp.Acknowledge SecureChannel.chunks SecureChannel.c SecureChannel.cfg []*MessageChunk map[uint32][]*MessageChunk
+
+//@ func github.com/gopcua/opcua/ua.Response.Header
+//@   assumed
+//@   params r
+//@   assigns nothing
+//@   ensures result != nil
+
+// Receive: whatever the peer sends, in any channel state: no panic; every loop iteration either
+// returns or has consumed one frame (no spinning without input); the backlog kept for one request id
+// never exceeds the negotiated chunk count; a delivered message is at most MaxMessageSize long.
+//@ func (*SecureChannel).Receive
+//@   props C13 C20 C06
+//@   bytes
+//@   use mergeChunks@safe
+//@   requires storedOK(s) && s.c != nil && uacp.connInv(s.c) && s.cfg != nil && chunkTableOK(s) && ctx != nil
+//@   requires s.openingInstance != nil ==> instOK(s.openingInstance)
+//@   assigns *
+//@   ensures [C13:result] result != nil
+//@   loop 0 invariant s != nil && s.c != nil && uacp.connInv(s.c) && s.cfg != nil && ctx != nil
+//@   loop 0 invariant storedOK(s)
+//@   loop 0 invariant chunkTableOK(s)
+//@   loop 0 invariant s.openingInstance != nil ==> instOK(s.openingInstance)
+//@   requires [limit-representable] s.c.ack.MaxChunkCount < 4294967295
+//@   requires [C13:backlog-bounded] forall k uint32 :: { in(k, s.chunks) } in(k, s.chunks) ==> len(s.chunks[k]) <= int(s.c.ack.MaxChunkCount)
+//@   ensures [C13:backlog-bounded] forall k uint32 :: { in(k, s.chunks) } in(k, s.chunks) ==> len(s.chunks[k]) <= int(s.c.ack.MaxChunkCount)
+//@   loop 0 invariant [C13:backlog-bounded] s.c.ack.MaxChunkCount < 4294967295 &&
+//@           (forall k uint32 :: { in(k, s.chunks) } in(k, s.chunks) ==> len(s.chunks[k]) <= int(s.c.ack.MaxChunkCount))
+//@   requires len(s.chunks) <= 1
+//@   loop 0 invariant [C13:incomplete-messages-bounded] len(s.chunks) <= 1
 
 // ---------------------------------------------------------------------------
 // C12: reassembly of chunk streams
